@@ -29,6 +29,17 @@ let site_name (s : BinNums.coq_N) : string =
   | 21 -> "rtprtcp.ParseRtpHeader:slice"
   | 22 -> "rtprtcp.ParseRtcpHeader:slice"
   | 23 -> "rtsp.readInterleaved:makeslice"
+  | 30 -> "bele.BeUint32:index"
+  | 31 -> "bele.BeUint16:index"
+  | 32 -> "gb28181.(*PsUnpacker).parseAvStream:index"
+  | 33 -> "gb28181.(*PsUnpacker).parseAvStream:slice"
+  | 34 -> "gb28181.readPts:index"
+  | 35 -> "gb28181.(*PsUnpacker).onAvPacketWrap:index"
+  | 36 -> "rtprtcp.(*RtpPacketList).PopFirst:nil"
+  | 37 -> "rtprtcp.(*RtpPacketList).PeekFirst:nil"
+  | 38 -> "gb28181.(*PsUnpacker).FeedRtpBody:slice"
+  | 39 -> "gb28181.ps:index"
+  | 40 -> "gb28181.(*PsUnpacker).parsePsm:slice"
   | n -> "site" ^ string_of_int n
 
 let panic s = "panic@" ^ site_name s
@@ -136,6 +147,18 @@ let register () =
         let s = bytes_of_token b in
         (match NetWsRead.read_ws_all fx (nat_of_int (Stdlib.List.length s + 1)) s [] with
          | Res.Ok ps -> "ok " ^ String.concat "," (Stdlib.List.map token_of_bytes ps @ ["err"])
+         | Res.Err _ -> "err-fuel"
+         | Res.Panic s -> panic s)
+      | _ -> "bad-args");
+  Registry.register "c13.ps" (function
+      | [mx; pkts] ->
+        let pk = if pkts = "-" then [] else Stdlib.List.map bytes_of_token (String.split_on_char ',' pkts) in
+        (match NetPs.run_ps fx (z_of_int (int_of_string mx)) NetPs.ps_init pk with
+         | Res.Ok outs ->
+           let show = function
+             | NetPs.PsErr -> "e" | NetPs.PsOk -> "k"
+             | NetPs.PsEv e -> Printf.sprintf "av:%s:%s:%s:%s" (token_of_z e.NetPs.pe_pt) (token_of_z e.NetPs.pe_ts) (token_of_z e.NetPs.pe_pts) (token_of_bytes e.NetPs.pe_payload) in
+           "ok " ^ (if outs = [] then "-" else String.concat ";" (Stdlib.List.map show outs))
          | Res.Err _ -> "err-fuel"
          | Res.Panic s -> panic s)
       | _ -> "bad-args")
